@@ -21,6 +21,7 @@ import HSModel.Proofs.Shape
 import HSModel.Proofs.RunInv
 import HSModel.Proofs.AbsLemmas
 import HSModel.Proofs.Whole
+import HSModel.Proofs.Reader
 namespace HS.C09
 variable (cfg : Config) (o : Oracle)
 
@@ -34,7 +35,7 @@ def markers : Nat → Str
 def ObjsAddressed (s : Store) : Prop :=
   ∀ c t, s.objs.get c = some t → ∃ k, c = o.dig cfg.alg t ++ markers k
 
-theorem objs_step (p : Option Str) (s s' : Store) (x : Eff) (hx : Shape cfg o p (.eff x))
+theorem objs_step (s s' : Store) (x : Eff) (hx : PubAtDigest cfg o (.eff x))
     (ha : s.apply x = some s') (hs : ObjsAddressed cfg o s) : ObjsAddressed cfg o s' := by
   cases x with
   | publishObj c t =>
@@ -139,7 +140,7 @@ theorem objs_step (p : Option Str) (s s' : Store) (x : Eff) (hx : Shape cfg o p 
 
 theorem preserved (p : Option Str) :
     Prog.Preserved (Shape cfg o p) (fun w => ObjsAddressed cfg o w.st) :=
-  preserved_of_store (fun s x s' hx ha hs => objs_step cfg o p s s' x hx ha hs)
+  preserved_of_store (fun s x s' hx ha hs => objs_step cfg o s s' x (pubAtDigest_of_shape cfg o p _ hx) ha hs)
 
 /-- after any call, from any state in which objects are well addressed — and
     under any fault plan the world carries — objects are well addressed -/
@@ -260,5 +261,125 @@ theorem values_empty : ValuesFrom [] [] Store.empty := by
   · intro k v h; simp [Store.empty] at h
   · intro d n t h; simp [Store.empty] at h
 
+
+/-! ### the same under every interleaving, and what readers get -/
+
+/-- the content an object key may hold: the key is its digest (possibly with deletion markers) -/
+def AtDigest (c : Str) (t : Tok) : Prop := ∃ k, c = o.dig cfg.alg t ++ markers k
+
+/-- a world whose pid references and documents hold supplied values and whose objects sit at their
+    digest answers reads accordingly -/
+theorem good_answers (vs : List Str) (ts : List Tok) :
+    Answers (fun w => ValuesFrom vs ts w.st ∧ ObjsAddressed cfg o w.st) (GoodAnswers vs ts (AtDigest cfg o)) := by
+  intro w e hw
+  cases e with
+  | readDoc d n =>
+    simp only [respond]
+    split
+    · trivial
+    · simp only [respondCore]
+      cases hg : (faultStep w (Ev.readDoc d n)).2.st.mdocs.get (d, n) with
+      | none => trivial
+      | some t => exact hw.1.2 d n t (by rw [faultStep_st] at hg; exact hg)
+  | readObj c =>
+    simp only [respond]
+    split
+    · trivial
+    · simp only [respondCore]
+      cases hg : (faultStep w (Ev.readObj c)).2.st.objs.get c with
+      | none => trivial
+      | some t => exact hw.2 c t (by rw [faultStep_st] at hg; exact hg)
+  | readRef l =>
+    cases l with
+    | pidRef k =>
+      simp only [respond]
+      split
+      · trivial
+      · simp only [respondCore]
+        cases hg : (faultStep w (Ev.readRef (.pidRef k))).2.st.pidRefs.get k with
+        | none => trivial
+        | some t => exact hw.1.1 k t (by rw [faultStep_st] at hg; exact hg)
+    | _ => simp only [GoodAnswers]
+  | _ => simp only [GoodAnswers]
+
+/-- what a call of a given kind may return under interleaving -/
+def readerPost (vs : List Str) (ts : List Tok) : Option Call → Except Exc Val → Prop
+  | some (.retrieveMetadata _ _) => ReadsFrom ts
+  | some (.retrieveObject _) => ReadsObj vs (AtDigest cfg o)
+  | _ => fun _ => True
+
+/-- **Whole at every instant under every interleaving.** Any number of threads running any calls
+    with any arguments, from any world (any directory whose pid references hold values from `vs0`,
+    whose documents hold versions from `ts0` and whose objects sit at their digest; any lock lists;
+    any fault plan), under every schedule and at every granularity of interleaving (`fuel = 1`: one
+    primitive per step): after every step every pid reference holds a whole cid that was there or
+    that one of the calls supplied, every document a whole version that was there or that one of the
+    `store_metadata` calls supplied, every object sits at its digest; and a reader that has returned
+    normally got — `retrieve_metadata`: one such whole version; `retrieve_object`: content whose
+    digest is a cid one of those pid references held. -/
+theorem whole_under_every_interleaving (calls : List Call) (w0 : World) (vs0 : List Str) (ts0 : List Tok)
+    (hv : ValuesFrom vs0 ts0 w0.st) (hob : ObjsAddressed cfg o w0.st) (fuel : Nat) (sched : List Nat) (n : Nat) :
+    let cf := (runSchedule fuel { w := w0, ts := calls.map (fun c => TState.fresh (c.prog cfg o)) } sched n).1
+    let vs := vs0 ++ calls.flatMap (cidsSupplied cfg o)
+    let ts := ts0 ++ calls.flatMap docsSupplied
+    ValuesFrom vs ts cf.w.st ∧ ObjsAddressed cfg o cf.w.st ∧
+    ∀ (i : Nat) (r : Except Exc Val), cf.ts[i]? = some (.finished r) →
+      (∀ pid f, calls[i]? = some (.retrieveMetadata pid f) → ∀ t, r = .ok (.content t) → t ∈ ts) ∧
+      (∀ pid, calls[i]? = some (.retrieveObject pid) → ∀ t, r = .ok (.content t) →
+        ∃ c ∈ vs, ∃ k, c = o.dig cfg.alg t ++ markers k) := by
+  intro cf vs ts
+  let P : Ev → Prop := fun e => Supplies vs ts e ∧ PubAtDigest cfg o e
+  let I : World → Prop := fun w => ValuesFrom vs ts w.st ∧ ObjsAddressed cfg o w.st
+  have hpres : Prog.Preserved P I :=
+    preserved_of_store (J := fun s => ValuesFrom vs ts s ∧ ObjsAddressed cfg o s)
+      (fun s x s' hx ha hs => ⟨values_step vs ts s s' x hx.1 ha hs.1, objs_step cfg o s s' x hx.2 ha hs.2⟩)
+  have hP : ∀ e, NoEff e → P e := fun e he => ⟨supplies_of_noEff vs ts e he, pubAtDigest_of_noEff cfg o e he⟩
+  have hall : ∀ c ∈ calls, (c.prog cfg o : Prog (Except Exc Val)).AllEv P := by
+    intro c hc
+    apply allEv_and
+    · apply Prog.allEv_mono _ _ (call_supplies cfg o [] [] c)
+      apply supplies_mono
+      · intro v hv'
+        simp only [List.nil_append] at hv'
+        exact List.mem_append_right _ (List.mem_flatMap.mpr ⟨c, hc, hv'⟩)
+      · intro t ht'
+        simp only [List.nil_append] at ht'
+        exact List.mem_append_right _ (List.mem_flatMap.mpr ⟨c, hc, ht'⟩)
+    · exact Prog.allEv_mono _ (pubAtDigest_of_shape cfg o _) (call_shape cfg o c)
+  have h0 : SafeConf P (GoodAnswers vs ts (AtDigest cfg o)) I (fun i => readerPost cfg o vs ts calls[i]?)
+      { w := w0, ts := calls.map (fun c => TState.fresh (c.prog cfg o)) } := by
+    refine ⟨⟨valuesFrom_mono hv (fun _ h => List.mem_append_left _ h) (fun _ h => List.mem_append_left _ h), hob⟩, ?_⟩
+    · intro i p hp
+      simp only at hp
+      cases hc : calls[i]? with
+      | none => rw [List.getElem?_map, hc] at hp; cases hp
+      | some c =>
+        rw [List.getElem?_map, hc] at hp
+        cases hp
+        have hmem : c ∈ calls := List.mem_of_getElem? hc
+        have key : Prog.Safe P (GoodAnswers vs ts (AtDigest cfg o)) (readerPost cfg o vs ts (some c))
+            (c.prog cfg o : Prog (Except Exc Val)) := by
+          cases c with
+          | retrieveMetadata pid f => exact retrieveMetadata_safe cfg o P hP vs ts _ pid f
+          | retrieveObject pid => exact retrieveObject_safe cfg o P hP vs ts _ pid
+          | _ => exact Prog.safe_of_allEv _ (hall _ hmem)
+        show Prog.Safe P _ (readerPost cfg o vs ts calls[i]?) _
+        rw [hc]; exact key
+  have hfin := safe_schedule hpres (good_answers cfg o vs ts) _ fuel sched _ n h0
+  refine ⟨hfin.1.1, hfin.1.2, ?_⟩
+  intro i r hi
+  have hq := safe_finished hfin i r hi
+  constructor
+  · intro pid f hc t ht
+    rw [hc] at hq
+    exact hq t ht
+  · intro pid hc t ht
+    rw [hc] at hq
+    obtain ⟨c, hcv, k, hk⟩ := hq t ht
+    exact ⟨c, hcv, k, hk⟩
+
+/-- non-vacuity: from the empty store with a writer of a document and a reader of it, one
+    primitive per step -/
+example : ValuesFrom [] [] Store.empty ∧ ObjsAddressed cfg o Store.empty := ⟨values_empty, empty_ok cfg o⟩
 
 end HS.C09
